@@ -1,6 +1,169 @@
-(* C17 — lemmas (interim: the tree as found; Utf8ToBig5 stalls) *)
+(* C17 — the lemmas Props/C17.v states. Sweeps live in Proofs/C17_sweep_*.v (rebuilt only when
+   Gen/Big5Tab.v changes), table-independent lemmas in Proofs/C17_scan.v. *)
 From Coq Require Import FMapPositive.
-From Verif Require Import Base.Common Model.C17.
+From Verif Require Import Base.Common Gen.Big5Tab Model.C17.
+From Verif Require Export Proofs.C17_spec Proofs.C17_scan Proofs.C17_sweep_enc Proofs.C17_sweep_b2u Proofs.C17_sweep_u2b.
 
-Lemma u2b_total_refuted : exists s, bytes_ok s = true /\ utf8_to_big5 s = Hang.
-Proof. exists [240]. split; vm_compute; reflexivity. Qed.
+Local Strategy expand [b2u_map u2b_map].
+
+(* ------------------------------------------------------------------ keys of short byte strings are distinct *)
+
+Lemma is_byte_range b : is_byte b = true -> 0 <= b < 256.
+Proof. unfold is_byte. intros H. apply andb_true_iff in H. destruct H as [H1 H2]. apply Z.leb_le in H1. apply Z.ltb_lt in H2. lia. Qed.
+
+Lemma bkey_inj_short l l' : bytes_ok l = true -> bytes_ok l' = true -> (length l <= 3)%nat -> (length l' <= 3)%nat ->
+  bkey l = bkey l' -> l = l'.
+Proof.
+  intros Hb Hb' Hl Hl' Hk.
+  assert (K : bkeyZ l = bkeyZ l').
+  { unfold bkey in Hk. apply Z2Pos.inj in Hk; [exact Hk| |].
+    - clear - Hb Hl. destruct l as [|a [|b [|c [|d l]]]]; cbn [length] in Hl; try lia; cbn [bytes_ok forallb] in Hb;
+        repeat (apply andb_true_iff in Hb; destruct Hb as [?Hx Hb]); repeat match goal with H : is_byte _ = true |- _ => apply is_byte_range in H end;
+        unfold bkeyZ; cbn [fold_left]; lia.
+    - clear - Hb' Hl'. destruct l' as [|a [|b [|c [|d l]]]]; cbn [length] in Hl'; try lia; cbn [bytes_ok forallb] in Hb';
+        repeat (apply andb_true_iff in Hb'; destruct Hb' as [?Hx Hb']); repeat match goal with H : is_byte _ = true |- _ => apply is_byte_range in H end;
+        unfold bkeyZ; cbn [fold_left]; lia. }
+  clear Hk.
+  destruct l as [|a [|b [|c [|d l]]]]; cbn [length] in Hl; try lia;
+  destruct l' as [|a' [|b' [|c' [|d' l']]]]; cbn [length] in Hl'; try lia;
+  cbn [bytes_ok forallb] in Hb, Hb';
+  repeat (apply andb_true_iff in Hb; destruct Hb as [?Hx Hb]); repeat (apply andb_true_iff in Hb'; destruct Hb' as [?Hy Hb']);
+  repeat match goal with H : is_byte _ = true |- _ => apply is_byte_range in H end;
+  unfold bkeyZ in K; cbn [fold_left] in K; try (exfalso; lia); try reflexivity.
+  - f_equal; lia.
+  - assert (a = a') by lia. assert (b = b') by lia. subst. reflexivity.
+  - assert (a = a') by lia. assert (b = b') by lia. assert (c = c') by lia. subst. reflexivity.
+Qed.
+
+Lemma big5_bytes_ok c : 0 <= c < 65536 -> bytes_ok (big5_bytes c) = true.
+Proof.
+  intros Hc. unfold big5_bytes, bytes_ok, is_byte. cbn [forallb].
+  assert (0 <= c / 256 < 256) by (split; [apply Z.div_pos; lia | apply Z.div_lt_upper_bound; lia]).
+  pose proof (Z.mod_pos_bound c 256 ltac:(lia)).
+  repeat (apply andb_true_iff; split); try apply Z.leb_le; try apply Z.ltb_lt; try lia.
+Qed.
+
+(* ------------------------------------------------------------------ Big5 -> UTF-8, table exactness *)
+
+Lemma b2u_pair hi lo : 128 <= hi ->
+  big5_to_utf8 [hi; lo] = Ok (match lookup b2u_map [hi; lo] with Some v => v | None => [] end).
+Proof.
+  intros H. unfold big5_to_utf8. cbn [length]. rewrite scan_S. unfold b2u_body.
+  destruct (hi <? 128) eqn:E; [apply Z.ltb_lt in E; lia|].
+  assert (E2 : (length (@nil Z) <? length [hi; lo])%nat = true) by reflexivity. rewrite E2.
+  cbn [scan res_map]. rewrite app_nil_r. reflexivity.
+Qed.
+
+Lemma b2u_table_exact :
+  (forall c u, In (c, u) b2u_rows -> 32768 <= c < 65536 /\ big5_to_utf8 (big5_bytes c) = Ok (utf8_std u)) /\
+  (forall hi lo, 128 <= hi < 256 -> 0 <= lo < 256 -> (forall u, ~ In (hi * 256 + lo, u) b2u_rows) -> big5_to_utf8 [hi; lo] = Ok []).
+Proof.
+  split.
+  - intros c u Hin. destruct (b2u_row c u Hin) as [Hc [_ [_ H]]]. split; assumption.
+  - intros hi lo Hhi Hlo Hno. rewrite b2u_pair by lia.
+    destruct (lookup b2u_map [hi; lo]) as [v|] eqn:E; [exfalso | reflexivity].
+    apply b2u_lookup_sound in E. destruct E as [c [u [Hin [Hk _]]]].
+    destruct (b2u_row c u Hin) as [Hc _].
+    apply bkey_inj_short in Hk; [| | apply big5_bytes_ok; lia | cbn [length]; lia | cbn [length big5_bytes]; lia].
+    + unfold big5_bytes in Hk. inversion Hk as [[Eh El]]. apply (Hno u).
+      replace (hi * 256 + lo) with c; [exact Hin|]. rewrite (Z.div_mod c 256) by lia. lia.
+    + unfold bytes_ok, is_byte. cbn [forallb]. repeat (apply andb_true_iff; split); try apply Z.leb_le; try apply Z.ltb_lt; try lia.
+Qed.
+
+(* a code has at most one entry *)
+Lemma b2u_rows_functional c u u' : In (c, u) b2u_rows -> In (c, u') b2u_rows -> u = u'.
+Proof.
+  intros H H'. destruct (b2u_row c u H) as [_ [Hs [_ E]]]. destruct (b2u_row c u' H') as [_ [Hs' [_ E']]].
+  rewrite E in E'. inversion E' as [E2]. apply utf8_std_inj; auto using scalar_range.
+Qed.
+
+(* ------------------------------------------------------------------ UTF-8 -> Big5, table exactness *)
+
+(* a sequence whose lead byte selects the arm that consumes all of it is looked up as a whole *)
+Lemma u2b_char s : lead_shape s = true -> utf8_to_big5 s = Ok (u2b_get s).
+Proof.
+  destruct s as [|b0 [|b1 [|b2 [|b3 s]]]]; cbn [lead_shape]; try discriminate; intros H.
+  - apply andb_true_iff in H. destruct H as [H1 H2]. apply negb_true_iff in H1.
+    unfold utf8_to_big5. cbn [length]. rewrite scan_S. unfold u2b_body. rewrite H1, H2.
+    assert (E2 : (length (@nil Z) <? length [b0; b1])%nat = true) by reflexivity. rewrite E2.
+    cbn [scan res_map]. rewrite app_nil_r. reflexivity.
+  - apply andb_true_iff in H. destruct H as [H H3]. apply andb_true_iff in H. destruct H as [H1 H2].
+    apply negb_true_iff in H1. apply negb_true_iff in H2.
+    unfold utf8_to_big5. cbn [length]. rewrite scan_S. unfold u2b_body. rewrite H1, H2, H3.
+    assert (E2 : (length (@nil Z) <? length [b0; b1; b2])%nat = true) by reflexivity. rewrite E2.
+    cbn [scan res_map]. rewrite app_nil_r. reflexivity.
+Qed.
+
+Lemma lead_shape_len s : lead_shape s = true -> (2 <= length s <= 3)%nat.
+Proof. destruct s as [|b0 [|b1 [|b2 [|b3 s]]]]; cbn [lead_shape length]; try discriminate; lia. Qed.
+
+Lemma u2b_table_exact :
+  (forall c u, In (c, u) u2b_rows -> 128 <= u -> utf8_to_big5 (utf8_std u) = Ok (big5_bytes c)) /\
+  (forall u, 128 <= u < 65536 -> (forall c, ~ In (c, u) u2b_rows) -> utf8_to_big5 (utf8_std u) = Ok replacement).
+Proof.
+  split.
+  - intros c u Hin Hu. destruct (u2b_row c u Hin) as [_ [_ H]]. destruct (H Hu) as [_ H2]. exact H2.
+  - intros u Hu Hno. destruct (enc_ok u Hu) as [_ [Hshape [Hbytes _]]].
+    rewrite (u2b_char _ Hshape). unfold u2b_get.
+    destruct (lookup u2b_map (utf8_std u)) as [v|] eqn:E; [exfalso | reflexivity].
+    apply u2b_lookup_sound in E. destruct E as [c [u' [Hin [Hk _]]]].
+    destruct (u2b_row c u' Hin) as [_ [Hu' _]].
+    pose proof (lead_shape_len _ Hshape) as Hlen.
+    apply bkey_inj_short in Hk; [| exact Hbytes | apply utf8_enc_bytes | lia | apply utf8_enc_len].
+    destruct (Z_lt_ge_dec u' 128) as [Hsmall|Hbig].
+    + (* rows below 0x80 all collapse to the key "\0" *)
+      assert (H0 : enc_ok1 u' = true).
+      { apply (zsweep enc_ok1 0 (Z.to_nat 65536) enc_sweep). rewrite Z2Nat.id by lia. lia. }
+      unfold enc_ok1 in H0. apply Z.ltb_lt in Hsmall. rewrite Hsmall in H0. apply zlist_eqb_eq in H0.
+      rewrite H0 in Hk. rewrite Hk in Hlen. cbn [length] in Hlen. lia.
+    + destruct (enc_ok u' ltac:(lia)) as [He _]. rewrite He in Hk.
+      apply utf8_std_inj in Hk; [|lia|lia]. subst u'. exact (Hno c Hin).
+Qed.
+
+(* ------------------------------------------------------------------ Big5 -> UTF-8 yields well-formed UTF-8 *)
+
+Lemma b2u_valid_utf8 s o : bytes_ok s = true -> big5_to_utf8 s = Ok o -> utf8_valid o = true.
+Proof.
+  unfold big5_to_utf8.
+  apply (scan_inv b2u_body (fun p => bytes_ok p = true) (fun o => utf8_valid o = true)); [reflexivity|].
+  intros p out rest HG Hb. unfold b2u_body in Hb. destruct p as [|b0 r]; [discriminate|].
+  cbn [bytes_ok forallb] in HG. apply andb_true_iff in HG. destruct HG as [Hb0 Hr]. apply is_byte_range in Hb0.
+  destruct (b0 <? 128) eqn:E.
+  - inversion Hb; subst. split; [exact Hr|]. intros tail Ht. apply Z.ltb_lt in E.
+    cbn [app utf8_valid]. assert (A : is_ascii b0 = true).
+    { unfold is_ascii. apply andb_true_iff. split; [apply Z.leb_le | apply Z.ltb_lt]; lia. }
+    rewrite A. exact Ht.
+  - destruct r as [|b1 r1]; [discriminate|]. cbn [forallb] in Hr. apply andb_true_iff in Hr. destruct Hr as [_ Hr1].
+    inversion Hb; subst. split; [exact Hr1|]. intros tail Ht.
+    destruct (lookup b2u_map [b0; b1]) as [v|] eqn:L; [|exact Ht].
+    apply b2u_lookup_sound in L. destruct L as [c [u [Hin [_ Hv]]]]. subst v.
+    destruct (b2u_row c u Hin) as [_ [Hs _]].
+    destruct (enc_ok u (scalar_range u Hs)) as [He [_ [_ [_ Hw]]]]. rewrite He.
+    rewrite wf1_app; [exact Ht | apply Hw; exact Hs].
+Qed.
+
+(* ------------------------------------------------------------------ mutual round trip *)
+
+Lemma mutual_roundtrip c u : In (c, u) b2u_rows -> In (c, u) u2b_rows ->
+  big5_to_utf8 (big5_bytes c) = Ok (utf8_std u) /\ utf8_to_big5 (utf8_std u) = Ok (big5_bytes c).
+Proof.
+  intros Hb Hu. destruct (b2u_row c u Hb) as [_ [Hs [_ H1]]]. split; [exact H1|].
+  destruct (u2b_row c u Hu) as [_ [_ H]]. pose proof (scalar_range u Hs). destruct H as [_ H2]; [lia | exact H2].
+Qed.
+
+Example mutual_sample : In (42048, 19968) b2u_rows /\ In (42048, 19968) u2b_rows.
+Proof. split; [exact (proj1 b2u_rows_sample) | exact (proj1 u2b_rows_sample)]. Qed.
+
+(* ------------------------------------------------------------------ non-vacuity: the model on concrete inputs *)
+
+Example model_examples :
+  big5_to_utf8 [164; 64; 65] = Ok [228; 184; 128; 65] /\                      (* A440 'A' -> U+4E00 'A' *)
+  utf8_valid [228; 184; 128; 65] = true /\ bytes_ok [164; 64; 65] = true /\
+  utf8_to_big5 [228; 184; 128; 65] = Ok [164; 64; 65] /\
+  big5_to_utf8 [164] = Ok [] /\ big5_to_utf8 [255; 255] = Ok [] /\          (* dangling lead byte, unmapped pair: dropped *)
+  utf8_to_big5 [240; 159; 152; 128] = Ok [255; 253; 255; 253; 255; 253; 255; 253] /\   (* the three inputs that used to stall *)
+  utf8_to_big5 [128] = Ok [255; 253] /\
+  utf8_to_big5 [228; 184] = Ok [255; 253; 255; 253] /\
+  utf8_to_big5 [194; 128] = Ok [255; 253] /\                                  (* U+0080: well-formed, not in the table *)
+  all_ascii [72; 105] /\ utf8_valid [237; 160; 128] = false /\ utf8_valid [192; 128] = false.
+Proof. vm_compute. repeat split; try reflexivity; repeat constructor. Qed.
